@@ -623,6 +623,27 @@ def g4b(rng):
     return case
 
 
+def g7conv(rng):
+    """convolution in metrics mode with a leader-follower intersector on the filter rank (follower projected)"""
+    a = rng.choice([1, 1, 2])
+    Qx, Sx = rng.randint(1, 7), rng.randint(1, 3)
+    Wx = a * (Qx - 1) + (Sx - 1) + 1
+    fs = [("t", "I", [[(a, "q"), (1, "s")]]), ("t", "F", [V("S")])]
+    if rng.random() < 0.5:
+        fs.reverse()
+    e = dict(out="O", oidx=[V("Q")], terms=[dict(kind="times", factors=fs, sel=None)])
+    case = dict(decl={"I": ["W"], "F": ["S"], "O": ["Q"]}, eins=[e], ext={"Q": Qx, "S": Sx, "W": Wx}, env={}, tags=["g7conv"],
+                mapping={"loop-order": {"O": ["Q", "S"]}, "spacetime": {"O": {"space": [], "time": ["Q", "S"]}}})
+    fmt = lambda r: {"default": {"rank-order": [r], r: {"format": "C", "cbits": 32, "pbits": 32}}}
+    case["format"] = {"I": fmt("W"), "F": fmt("S"), "O": fmt("Q")}
+    case["architecture"] = {"accel": [{"name": "System", "attributes": {"clock_frequency": 1000},
+                                       "local": [{"name": "Intersect", "class": "Intersector", "attributes": {"type": "leader-follower"}},
+                                                 {"name": "FPMul", "class": "compute", "attributes": {"type": "mul"}}]}]}
+    case["bindings"] = {"O": [{"config": "accel", "prefix": "tmp/conv_O"}, {"component": "Intersect", "bindings": [{"rank": "S", "leader": "F"}]},
+                              {"component": "FPMul", "bindings": [{"op": "mul"}]}]}
+    return case
+
+
 # ------------------------------------------------------------------------------------------ G5: cascades
 
 def g5(rng):
